@@ -1685,7 +1685,11 @@ func readNextHTTPCommand(packet []byte, argsIn [][]byte, msg *Message, wr io.Wri
 			if _, err = wr.Write([]byte(corshead)); err != nil {
 				return false, err
 			}
-			return false, nil
+			// The preflight request is complete and has been answered with
+			// "Connection: close". Consume it (an HTTP message without a
+			// command ends the connection) instead of leaving it in the
+			// buffer, where every later read would answer it again.
+			return true, nil
 		}
 		if len(path) == 0 || path[0] != '/' {
 			return false, errInvalidHTTP
